@@ -543,15 +543,19 @@ void ezc3d::c3d::updateParameters(const std::vector<std::string> &newPoints, con
 
     // If analogous data has been added
     ezc3d::ParametersNS::GroupNS::Group& grpAnalog(_parameters->group_nonConst(parameters().groupIdx("ANALOG")));
+    // Should always be declared, but we have to take in account Optotrak lazyness (an ANALOG group left empty declares no channel)
+    bool isAnalogDeclared(grpAnalog.nbParameters() != 0);
     size_t nAnalogs;
     if (data().nbFrames() > 0){
         if (data().frame(0).analogs().nbSubframes() > 0)
             nAnalogs = data().frame(0).analogs().subframe(0).nbChannels();
         else
             nAnalogs = 0;
-    } else
+    } else if (isAnalogDeclared)
         nAnalogs = parameters().group("ANALOG").parameter("LABELS").valuesAsString().size() + newAnalogs.size();
-    if (nAnalogs != static_cast<size_t>(grpAnalog.parameter("USED").valuesAsInt()[0])){
+    else
+        nAnalogs = newAnalogs.size();
+    if ((isAnalogDeclared || nAnalogs != 0) && nAnalogs != static_cast<size_t>(grpAnalog.parameter("USED").valuesAsInt()[0])){
         grpAnalog.parameter_nonConst("USED").set(nAnalogs);
 
         size_t idxLabels(static_cast<size_t>(grpAnalog.parameterIdx("LABELS")));
